@@ -41,7 +41,9 @@ type hW struct {
 	p     [hMaxH]*int64
 
 	// dead handles of before the last reset (must stay distinguishable only by generation)
-	locks int
+	locks   int
+	lastPan bool
+	lastMsg string
 }
 
 func hIsRel(k int) bool { return k == uR1 || k == uR2 }
